@@ -331,7 +331,8 @@ def run(chk):
     jobs += [(2, -1, 2, 'deg', 'kHz'), (1, 1, 1, 'deg', 'Hz')]
     run_jobs(chk, job_disk, jobs)
     pulses = [1, 2] if chk.tier == 'quick' else [1, 2, 3]
-    cj = [(r, s, n, p) for r in ratios[:5] for s in (-1, 1) for n in slits[:2] for p in pulses]
+    cratios = [1, 2, 3, Fraction(1, 2), Fraction(1, 3)] if chk.tier == 'quick' else [1, 2, 3, 4, Fraction(1, 2), Fraction(1, 3), Fraction(1, 4)]
+    cj = [(r, s, n, p) for r in cratios for s in (-1, 1) for n in slits[:2] for p in pulses]
     run_jobs(chk, job_cascade, cj)
     run_jobs(chk, job_validation, [0])
     run_jobs(chk, job_frequency, [0])
